@@ -3,9 +3,6 @@ From Coq Require Import List Bool Arith NArith ZArith.
 From GS Require Import Path.Resolve Path.Handle.
 Import ListNotations.
 
-Fixpoint lnat_eqb (a b : list nat) : bool :=
-  match a, b with [], [] => true | x :: a', y :: b' => Nat.eqb x y && lnat_eqb a' b' | _, _ => false end.
-
 (** a finite forest; the root is a directory *)
 Definition fs_of (entries : list (list nat * node)) : forest :=
   fun c => match c with
@@ -28,20 +25,22 @@ Definition kernel_ok (fs : forest) (follow : bool) (base : list nat) (a : bool) 
   | TPath _, _ => false
   end.
 
-Definition chk_ok (fs : forest) (x : chk) : bool :=
-  let '(base, a, p, obs, tf, tn) := x in
-  lnat_eqb (presented fs base a p) obs && kernel_ok fs true base a p tf && kernel_ok fs false base a p tn.
+(** the entries whose target depends on the reader: (candidate, the tracee's entry) *)
+Definition special_of (l : list (list nat * list nat)) : list nat -> option (list nat) :=
+  fun c => match find (fun e => lnat_eqb (fst e) c) l with Some e => Some (snd e) | None => None end.
 
-Definition forest_ok (x : list (list nat * node) * list chk) : bool :=
-  let fs := fs_of (fst x) in forallb (chk_ok fs) (snd x).
+Definition chk_ok (fs : forest) (sp : list nat -> option (list nat)) (x : chk) : bool :=
+  let '(base, a, p, obs, tf, tn) := x in
+  lnat_eqb (presented_m fs sp base a p) obs && kernel_ok fs true base a p tf && kernel_ok fs false base a p tn.
 
 (** which consultations of one forest disagree *)
 Fixpoint indexed {A} (i : N) (l : list A) : list (N * A) :=
   match l with [] => [] | x :: r => (i, x) :: indexed (N.succ i) r end.
 Definition failing {A} (ok : A -> bool) (l : list A) : list N :=
   flat_map (fun '(i, x) => if ok x then [] else [i]) (indexed 0%N l).
-Definition forest_failing (x : list (list nat * node) * list chk) : list N :=
-  let fs := fs_of (fst x) in failing (chk_ok fs) (snd x).
+Definition forest_failing (x : list (list nat * node) * list (list nat * list nat) * list chk) : list N :=
+  let '(ents, sp, chks) := x in
+  let fs := fs_of ents in failing (chk_ok fs (special_of sp)) chks.
 
 (** numeric form of the tables, compared with the driver's copy and with the classes observed *)
 Definition cls_code (c : cls) : list N :=
